@@ -62,6 +62,15 @@ def main():
         target = "/repo"
     else:
         env = {"VERIF_REPO": wt}; target = wt
+    # does the demonstration still fail on CURRENT HEAD + patch (later fix: commits may have made the change harmless)?
+    # (the demo is copied to the same relative place, seeded/<k>/demo.py: many demos find the library relative to __file__)
+    ddir = os.path.join(target, "seeded", str(k))
+    os.makedirs(ddir, exist_ok=True)
+    shutil.copy(demo, os.path.join(ddir, "demo.py"))
+    rch, outh = sh("PYTHONPATH=%s %s %s" % (target, PY, os.path.join(ddir, "demo.py")), cwd=target, timeout=600)
+    shutil.rmtree(os.path.join(target, "seeded"), ignore_errors=True)
+    hard = ("/tmp/seed-%s" % prop) in open(demo).read()      # a demo that hard-codes the agent's worktree proves nothing here
+    rec["demo_on_head_with_patch"] = {"exit": rch, "tail": outh[-300:], "hard_coded_worktree": hard}
     rcc, outc = sh("./check %s --tier %s" % (prop, tier), cwd=VERIF, env=env, timeout=3600)
     if on_repo: sh("git -C /repo checkout -- .")
     else: sh("git checkout -- pysyncobj", cwd=wt)
@@ -69,6 +78,10 @@ def main():
     rec["check"] = {"cmd": "./check %s --tier %s" % (prop, tier), "against": target, "exit": rcc,
                     "lines": viol[:4], "tail": outc[-400:]}
     rec["caught"] = rcc == 1
+    if not rec["caught"] and rch == 0 and not hard and rc1 != 0:
+        rec["superseded_by_fix"] = rec["checked_on"]
+        rec["note"] = ("on %s the change no longer breaks the property: its own demonstration passes with the patch applied "
+                       "(a fix: commit made after the change was written covers the situation it needs)" % rec["checked_on"])
     dst = os.path.join(VERIF, "seeded", "%s-%s" % (prop, k))
     os.makedirs(dst, exist_ok=True)
     shutil.copy(patch, os.path.join(dst, "patch.diff")); shutil.copy(demo, os.path.join(dst, "demo.py"))
